@@ -87,6 +87,15 @@ def closesWindow : Phase → Bool
   | .replaced | .cleared | .idle => true
   | _ => false
 
+/-- the snapshot reached phase `p`: from `replaced` on deletes wait for it (window closed); its
+    cells stay replayable from the WAL until the segments are removed (`idle`) -/
+def Window.snapTo (w : Window) (p : Phase) : Window :=
+  { w with isOpen := w.isOpen && !closesWindow p, snapPuts := if p = .idle then [] else w.snapPuts }
+
+/-- restart: whatever was in the snapshot store comes back into the hot store from the WAL -/
+def Window.crash (w : Window) : Window :=
+  { w with isOpen := false, hotPuts := w.snapPuts ++ w.hotPuts, snapPuts := [] }
+
 /-- `none` = the statement holds on this trace; `some reason` = where it fails. -/
 def checkFrom (h : List Ev) (w : Window) : List (Op × Obs) → Option String
   | [] => none
@@ -107,10 +116,9 @@ def checkFrom (h : List Ev) (w : Window) : List (Op × Obs) → Option String
     -- the cells put so far move to the snapshot store; later puts go to the new hot store
     if o = .ok then checkFrom h { w with isOpen := true, snapPuts := w.hotPuts, hotPuts := [] } tr
     else checkFrom h w tr
-  | (.snapTo p, _) :: tr =>
-    if closesWindow p then checkFrom h { w with isOpen := false, snapPuts := [] } tr else checkFrom h w tr
-  | (.crash false, _) :: tr => checkFrom h { w with isOpen := false, snapPuts := [] } tr
-  | (.compactCrash .., _) :: tr => checkFrom h { w with isOpen := false, snapPuts := [] } tr
+  | (.snapTo p, _) :: tr => checkFrom h (w.snapTo p) tr
+  | (.crash false, _) :: tr => checkFrom h w.crash tr
+  | (.compactCrash .., _) :: tr => checkFrom h w.crash tr
   | (op, _) :: tr => if inScope op then checkFrom h w tr else some "op-outside-C03:"
 
 def check (tr : List (Op × Obs)) : Option String := checkFrom [] {} tr
